@@ -379,12 +379,13 @@ theorem readUntilImageData_vis (cfg : Cfg) (t : TCfg) (r : R) :
 
 theorem nextFrameBuf_vis (cfg : Cfg) (t : TCfg) (r : R) (buf : Bytes) :
     (nextFrameBuf cfg t r buf).1.visible = r.visible := by
-  by_cases hrem : r.remaining = 0
-  · unfold nextFrameBuf; rw [if_pos hrem]
-  · cases hcaf : r.sub.caf with
-    | false => rw [nextFrameBuf_ncaf cfg t r buf hrem hcaf]; exact frameInto_vis cfg t r buf
+  rcases inside_cases r with hin | ⟨hcur, hrem⟩ | ⟨hcur, hrem, hcaf⟩
+  · rw [nextFrameBuf_of_inside cfg t r buf hin]; exact frameInto_vis cfg t r buf
+  · rw [nextFrameBuf_polled cfg t r buf hcur hrem]
+  · cases hcaf' : r.sub.caf with
+    | false => rw [hcaf] at hcaf'; cases hcaf'
     | true =>
-      rw [nextFrameBuf_caf cfg t r buf hrem hcaf]
+      rw [nextFrameBuf_caf cfg t r buf hcur hrem hcaf]
       have h := readUntilImageData_vis cfg t r
       generalize readUntilImageData cfg t r = o at h
       obtain ⟨r1, res⟩ := o
